@@ -122,11 +122,11 @@ func round(s *slip.Scope, f slip.Object, args slip.List, depth int) slip.Values 
 		zd := (*big.Float)(div.(*slip.LongFloat))
 		ns := zn.Sign()
 		if ns < 0 {
-			zn = zn.Abs(zn)
+			zn = new(big.Float).Abs(zn)
 		}
 		ds := zd.Sign()
 		if ds < 0 {
-			zd = zd.Abs(zd)
+			zd = new(big.Float).Abs(zd)
 		}
 		_ = zq.Quo(zn, zd)
 		var (
@@ -174,11 +174,11 @@ func round(s *slip.Scope, f slip.Object, args slip.List, depth int) slip.Values 
 		zd := (*big.Int)(div.(*slip.Bignum))
 		ns := zn.Sign()
 		if ns < 0 {
-			zn = zn.Abs(zn)
+			zn = new(big.Int).Abs(zn)
 		}
 		ds := zd.Sign()
 		if ds < 0 {
-			zd = zd.Abs(zd)
+			zd = new(big.Int).Abs(zd)
 		}
 		_, _ = zq.QuoRem(zn, zd, &zr)
 		_ = zp.Mul(&zq, zd)
@@ -220,11 +220,11 @@ func round(s *slip.Scope, f slip.Object, args slip.List, depth int) slip.Values 
 		zd := (*big.Rat)(div.(*slip.Ratio))
 		ns := zn.Sign()
 		if ns < 0 {
-			zn = zn.Abs(zn)
+			zn = new(big.Rat).Abs(zn)
 		}
 		ds := zd.Sign()
 		if ds < 0 {
-			zd = zd.Abs(zd)
+			zd = new(big.Rat).Abs(zd)
 		}
 		_ = zq.Quo(zn, zd)
 		_ = bi.Quo(zq.Num(), zq.Denom())
